@@ -955,6 +955,76 @@ func (m *Model) ruleEXP(r *Results) {
 				r.check(!isConst, rule, "i / "+m.declName(fn)+" / no expiry of its own handed to "+m.declName(g), m.instrPos(c), "", "an operation that takes no expiry passes a constant expiry to "+g.Name()+", which stores it: the document's expiry is replaced (a literal 0 removes it) by a call that was not given one")
 			})
 		}
+		// (k) a tombstoning write always hands its expiry on: a call of the optional-expiry writer
+		// whose body argument is an empty payload (a deletion) passes a non-nil expiry pointer on
+		// every path - a deletion clears (or sets) the expiry, it never preserves the dead
+		// document's deadline
+		for _, fn := range m.Funcs {
+			m.eachCall(fn, func(c ssa.CallInstruction) {
+				g := c.Common().StaticCallee()
+				if g == nil || !m.inPkg(g) {
+					return
+				}
+				expIdx := -1
+				for i, p := range g.Params {
+					if pt, ok := p.Type().Underlying().(*types.Pointer); ok && isExpT(pt.Elem()) && p.Name() != "" {
+						if _, isNamed := pt.Elem().(*types.Named); !isNamed || true {
+							expIdx = i
+						}
+					}
+				}
+				if expIdx < 0 || expIdx >= len(c.Common().Args) {
+					return
+				}
+				// an empty payload among the arguments: a fresh struct nothing was stored into
+				empty := false
+				for _, a := range c.Common().Args {
+					al, ok := stripConv(a).(*ssa.Alloc)
+					if !ok || al.Referrers() == nil {
+						continue
+					}
+					if _, isStruct := al.Type().Underlying().(*types.Pointer).Elem().Underlying().(*types.Struct); !isStruct {
+						continue
+					}
+					stored := false
+					for _, u := range *al.Referrers() {
+						switch x := u.(type) {
+						case *ssa.Store:
+							if x.Addr == ssa.Value(al) {
+								stored = true
+							}
+						case *ssa.FieldAddr:
+							stored = true
+						}
+					}
+					if !stored {
+						empty = true
+					}
+				}
+				if !empty {
+					return
+				}
+				ea := stripConv(c.Common().Args[expIdx])
+				_, isCell := ea.(*ssa.Alloc)
+				// (or a helper every return of which is the address of a variable: `setExpiry(exp)`)
+				if hc, ok := ea.(*ssa.Call); ok && !isCell {
+					if h := hc.Common().StaticCallee(); h != nil && m.inPkg(h) && len(h.Blocks) > 0 {
+						all := true
+						for _, ret := range returnsOf(h) {
+							if len(ret.Results) != 1 {
+								all = false
+								continue
+							}
+							if _, isAl := stripConv(ret.Results[0]).(*ssa.Alloc); !isAl {
+								all = false
+							}
+						}
+						isCell = all
+					}
+				}
+				r.check(isCell, rule, "k / "+m.declName(fn)+" / a tombstoning write hands its expiry on", m.instrPos(c), "the expiry handed to the writer is the address of the caller's expiry on every path", "a write that removes the body (empty payload) hands the xattr writer an expiry that may be nil - 'leave the stored expiry alone': the tombstone keeps the dead document's deadline, a later re-creation that preserves the expiry inherits it, and the expiry pass reports the deletion a second time")
+			})
+		}
 		r.ok(rule, "i / inventory", "-", "%d expiry-taking wrapper(s) of the optional-expiry writer; %d call(s) from functions without an expiry parameter", len(wrappers), ni)
 	}
 }
